@@ -12,7 +12,7 @@ from . import build, harness as H
 NATIVE = os.path.join(VERIF, 'native')
 
 
-NONREENTRANT = ('localtime', 'gmtime', 'ctime', 'asctime', 'getpwuid', 'getpwnam', 'getgrgid', 'getgrnam', 'ttyname', 'getlogin', 'strtok', 'strerror')
+from .build import NONREENTRANT
 
 
 def build_thr(variant, san='asan', fn=False, repo=None, io=False):
